@@ -1,5 +1,6 @@
 import JPV.Impl.Parse
 import JPV.Spec.Typing
+import JPV.Proofs.ParseSteps
 namespace JPV.Proofs
 open JPV
 
@@ -18,9 +19,11 @@ theorem argWellTyped_iff (env : Impl.Env) (t : Ty) (a : Expr) (h : Built env a) 
       (match t with
        | .value => Spec.wtComparable (sigsOfEnv' env) a = true
        | .logical => Spec.wtTest (sigsOfEnv' env) a = true
-       | .nodes => Spec.wtNodes (sigsOfEnv' env) a = true) := by sorry
+       | .nodes => Spec.wtNodes (sigsOfEnv' env) a = true) :=
+  argWellTyped_iff' env t a h
 
 theorem compile_welltyped : ∀ (env : Impl.Env) (s : Str) (q : Query), Impl.compile env s = .ok q →
-    Spec.wtQuery (sigsOfEnv' env) q = true ∧ Spec.intsQuery env.minIdx env.maxIdx q = true := by sorry
+    Spec.wtQuery (sigsOfEnv' env) q = true ∧ Spec.intsQuery env.minIdx env.maxIdx q = true :=
+  fun env s q h => compile_welltyped' env s q h
 
 end JPV.Proofs
